@@ -36,6 +36,14 @@ impl OverlapChecker
         size: usize)
         -> Result<(), ()>
     {
+        // An empty range cannot overlap anything, and keeping
+        // it in the list would hide the entries around it from
+        // the neighbour checks below
+        if size == 0
+        {
+            return Ok(());
+        }
+
         let (index, maybe_overlapping_entry) =
             self.check_overlap(position, size);
         
